@@ -17,7 +17,8 @@ RULE = ("Hypothesis generates models with N<=4 modes (quick; <=5 thorough) incl.
         "evaluation of the time-ordered triple integral (6 orderings x divided differences of exp over the simplex, confluent nodes "
         "for coinciding levels / vanishing bosonic frequency) and the tables with on-demand values.  Up to two further triples per case are "
         "Matsubara frequencies shifted off the axis by real amounts (z_k = i w_n_k + mu_k: common shift, equal shift on a coinciding pair, "
-        "independent shifts); operator()(z1,z2,z3) there is compared with the same divided-difference sum continued to these z.  Non-trivial: the component has a "
+        "independent shifts); operator()(z1,z2,z3) there is compared with the same divided-difference sum continued to these z, and so are up to two "
+        "generic complex triples (|Im z| >= 0.2).  Non-trivial: the component has a "
         "non-zero chain and (a coinciding-frequency family is present, or >=3 distinct indices, or complex build).")
 ASSUMPTIONS = ["numpy; Hermite-Genocchi representation of the triple integral (pbt/oracle.py chi4)",
                "models whose reference spectrum has two levels 1e-10..1e-6 apart are discarded (pomerol's absolute 1e-8 resonance/merge thresholds)",
@@ -192,6 +193,23 @@ def execute(case, ctx):
         Smax = max([beta ** 3 * ref.chi4(i, j, k, l, *tr, return_scale=True)[1] for tr in triples] + [0.0])
         for t in range(len(cz)):
             v = odz[t]
+            if t < ncz0 and np.isfinite(v):
+                # generic complex triple (|Im z| >= 0.2): the same continued Lehmann sum, written as a shift of the n = 0 frequencies
+                w0 = math.pi / beta
+                zc = [complex(z[0], z[1]) for z in cz[t]]
+                mu = tuple(z - 1j * w0 for z in zc[:2]) + (zc[2] - 1j * w0,)
+                r, sc = ref.chi4(i, j, k, l, 0, 0, 0, return_scale=True, shifts=mu)
+                if ref.last_ambiguous:
+                    classes.append("shifted-ambiguous")
+                else:
+                    minim = min(abs(z.imag) for z in zc)
+                    tolz = min(TOL * (abs(r) + beta ** 3 * sc) * (1.0 + 1.0 / (beta * minim)) ** 3, TOL_COND * (1.0 + beta + 3.0 / minim) * ref.last_cond) + chi_floor(beta, ref.N) * (1.0 + 1.0 / (beta * minim)) ** 3
+                    tolz += 10.0 * ref.vec_sens(lambda q: q.chi4(i, j, k, l, 0, 0, 0, shifts=mu))
+                    if not abs(v - r) <= tolz:
+                        return fail("chi_%d%d%d%d at generic complex frequencies %s: on demand %r, reference %r, |diff| %.3e > tol %.3e" % (
+                            i, j, k, l, zc, v, r, abs(v - r), tolz), "mismatch-ref-complex", {"triple": cz[t]})
+                    if abs(r) > 1e3 * tolz:
+                        classes.append("generic-complex-vs-reference")
             if t >= ncz0 and np.isfinite(v):
                 # shifted Matsubara triple: the value itself is compared with the continued Lehmann sum of the reference
                 e = sz[t - ncz0]
